@@ -77,12 +77,29 @@ def run(chk):
         nt.append(l)
         if len(chk.failures) > 10: break
     chk.note_cases("session-oplog", lines, nt, sample_n=1, dist=dist)
+    # the single-erasure back-end (same Slot layer, its own index arithmetic): deliveries incl. indices around the end of the parity slot
+    from . import v1
+    def bad(n, pcap):
+        top = n + pcap
+        return [x for x in (top, top + 1, top + 2) if rnd.random() < 0.7]
+    nscn = [v1.build(rnd, "naive", with_prior=True, bad=bad) for _ in range(60 if chk.quick() else 1500)]
+    nlines, nimpl, nouts = v1.run(chk, nscn, "naive", stream="naive-oplog")
+    nnt = []
+    for s, l, raw, out in zip(nscn, nlines, nimpl, nouts):
+        if len(out) != len(s.ops):
+            chk.failures.append(core.Failure("harness produced no / truncated result", "session", "naive", l, raw[-300:], key="crash")); break
+        pair = pair_of_start(s, out, s.meta["start_op"])
+        sess_ops = set([s.meta["start_op"]] + s.meta["seg_ops"] + [s.meta["done_op"]])
+        for msg in monitor(s, out, sess_ops, pair)[:2]:
+            chk.failures.append(core.Failure("[single-erasure back-end] " + msg, "session", "naive", l, raw[:2000], key="c08"))
+        nnt.append(l)
+    chk.note_cases("naive-oplog", nlines, nnt, sample_n=1, dist={"scenarios": len(nlines)})
     # the ring closure exercises every other API call (cancel, recover with remediation, marks) at every ring position
     from . import ring
     r = ring.explore(chk, 4, 10**6, budget_s=200)
     chk.cov["evaluations"] += r["transitions"]
     chk.cov["streams"]["ring-closure[N=4]"].update({"states": r["states"], "transitions": r["transitions"], "closed": r["exhaustive"]})
     return chk.finish(level="proof", extra={"flash_operations_monitored": nops},
-        rule="session-oplog: deliveries with ring histories (all slot positions incl. the last slot), losses up to and beyond the capacity, geometries over all fragment sizes, fragment counts one beyond what fits followed by the last fragments; every erase / program is checked: inside one slot, inside the session's pair, "
+        rule="naive-oplog: the same monitor over deliveries of the single-erasure back-end incl. the fragment indices around the end of the parity slot; session-oplog: deliveries with ring histories (all slot positions incl. the last slot), losses up to and beyond the capacity, geometries over all fragment sizes, fragment counts one beyond what fits followed by the last fragments; every erase / program is checked: inside one slot, inside the session's pair, "
              "header-area programs = one of the seven fields, no 0->1 need; ring closure: correspondence of every other call's operation log; non-trivial = every scenario (all issue flash operations); distinct by case text",
         trusted=core.TRUSTED_COMMON + ["C08: read-back equality follows from 'no program needs a 0->1 transition' under the AND-program device model of SimNor / Nor.v"])
